@@ -436,6 +436,11 @@ Octagonal_Shape<T>
 template <typename T>
 inline void
 Octagonal_Shape<T>::add_constraints(const Constraint_System& cs) {
+  // Dimension-compatibility check.
+  if (cs.space_dimension() > space_dimension()) {
+    throw_invalid_argument("add_constraints(cs)",
+                           "cs and *this are space-dimension incompatible");
+  }
   for (Constraint_System::const_iterator i = cs.begin(),
          i_end = cs.end(); i != i_end; ++i) {
     add_constraint(*i);
@@ -457,6 +462,11 @@ Octagonal_Shape<T>::add_recycled_congruences(Congruence_System& cgs) {
 template <typename T>
 inline void
 Octagonal_Shape<T>::add_congruences(const Congruence_System& cgs) {
+  // Dimension-compatibility check.
+  if (cgs.space_dimension() > space_dimension()) {
+    throw_invalid_argument("add_congruences(cgs)",
+                           "cgs and *this are space-dimension incompatible");
+  }
   for (Congruence_System::const_iterator i = cgs.begin(),
          cgs_end = cgs.end(); i != cgs_end; ++i) {
     add_congruence(*i);
